@@ -19,14 +19,15 @@ open Viv Viv.Whole
 
 /-- the attributes fixed at creation are kept, and an untracked row is kept entirely -/
 def Frozen (r r' : Row) : Prop :=
-  r'.label = r.label ∧ r'.key = r.key ∧ r'.entrance = r.entrance ∧ r'.sex = r.sex ∧ (r.tracked = false → r' = r)
+  r'.label = r.label ∧ r'.key = r.key ∧ r'.entrance = r.entrance ∧ r'.sex = r.sex ∧ (r.tracked = false → r' = r) ∧
+    r'.age = r.age
 
-theorem Frozen.refl (r : Row) : Frozen r r := ⟨rfl, rfl, rfl, rfl, fun _ => rfl⟩
+theorem Frozen.refl (r : Row) : Frozen r r := ⟨rfl, rfl, rfl, rfl, fun _ => rfl, rfl⟩
 
 theorem Frozen.trans {a b c : Row} (h1 : Frozen a b) (h2 : Frozen b c) : Frozen a c := by
-  obtain ⟨l1, k1, e1, s1, u1⟩ := h1
-  obtain ⟨l2, k2, e2, s2, u2⟩ := h2
-  refine ⟨l2.trans l1, k2.trans k1, e2.trans e1, s2.trans s1, fun hu => ?_⟩
+  obtain ⟨l1, k1, e1, s1, u1, a1⟩ := h1
+  obtain ⟨l2, k2, e2, s2, u2, a2⟩ := h2
+  refine ⟨l2.trans l1, k2.trans k1, e2.trans e1, s2.trans s1, fun hu => ?_, a2.trans a1⟩
   have hb := u1 hu
   subst hb
   exact u2 hu
@@ -91,15 +92,15 @@ def crnKey (B : Blk) (cfg : Config) (site : String) (t : Int) (j : Nat) : Nat :=
   keyOf cfg.keyBits
     ((B (seedStr cfg "wpop_crn" t (if cfg.akPerPhase then "key" ++ site else "key")) (blockSize cfg))[j]?.getD 0)
 
-theorem getElem?_mkRows (clock : Int) (labels keys sexes sts : List Nat) (j : Nat) :
-    (mkRows clock labels keys sexes sts)[j]? =
-      (labels[j]?).map fun l => ⟨l, true, keys.getD j 0, clock, sexes.getD j 0, sts.getD j 0, none⟩ := by
+theorem getElem?_mkRows (clock : Int) (labels keys sexes sts ages : List Nat) (j : Nat) :
+    (mkRows clock labels keys sexes sts ages)[j]? =
+      (labels[j]?).map fun l => ⟨l, true, keys.getD j 0, clock, sexes.getD j 0, sts.getD j 0, none, ages.getD j 0⟩ := by
   unfold mkRows
   rw [List.getElem?_map, List.getElem?_zipIdx]
   cases labels[j]? <;> simp
 
-theorem length_mkRows (clock : Int) (labels keys sexes sts : List Nat) :
-    (mkRows clock labels keys sexes sts).length = labels.length := by
+theorem length_mkRows (clock : Int) (labels keys sexes sts ages : List Nat) :
+    (mkRows clock labels keys sexes sts ages).length = labels.length := by
   simp [mkRows]
 
 /-- the keys a creation computes are the positional draws `crnKey` -/
@@ -133,7 +134,7 @@ def batchOf (B : Blk) (cfg : Config) (site : String) (t : Int) (labels : List Na
 theorem create_full (B : Blk) (cfg : Config) (site : String) (k : Nat) (s s' : State)
     (h : create B cfg site k s = .ok s') :
     (newLabels s.rows k = [] ∧ s' = s) ∨
-    ∃ (im : IndexMap.IMap) (sexes sts : List Nat),
+    ∃ (im : IndexMap.IMap) (sexes sts ages : List Nat),
       newLabels s.rows k ≠ [] ∧
       s.imap.update (IndexMap.hashPos (blockSize cfg)) cfg.fuel (batchOf B cfg site s.clock (newLabels s.rows k))
         (.int s.clock) = (im, .ok ()) ∧
@@ -141,7 +142,7 @@ theorem create_full (B : Blk) (cfg : Config) (site : String) (k : Nat) (s s' : S
         (blockSize cfg) (posOf im) (seedStr cfg "wpop_sex" s.clock "sex") 16 2 (sexWeights cfg)
         (newLabels s.rows k) = .ok sexes ∧
       s' = { s with imap := im, rows := (s.rows ++ mkRows s.clock (newLabels s.rows k)
-              ((List.range (newLabels s.rows k).length).map (crnKey B cfg site s.clock)) sexes sts) } := by
+              ((List.range (newLabels s.rows k).length).map (crnKey B cfg site s.clock)) sexes sts ages) } := by
   unfold create at h
   simp only at h
   split at h
@@ -164,19 +165,19 @@ theorem create_full (B : Blk) (cfg : Config) (site : String) (k : Nat) (s s' : S
           · rename_i sexes hsex _ sts hsts
             cases h
             cases u
-            exact Or.inr ⟨im, sexes, sts, fun hnil => hne (by rw [hnil]; rfl), himap, hsex, rfl⟩
+            exact Or.inr ⟨im, sexes, sts, _, fun hnil => hne (by rw [hnil]; rfl), himap, hsex, rfl⟩
 
 /-- **what a creation does to the table**: the clock and every existing row are untouched; the new rows are appended,
 carry the new labels in order, are tracked, entered at the current clock, have not left, and their `key` is the
 positional draw `crnKey` – whatever the existing population, the index map and every other parameter are. -/
 theorem create_spec (B : Blk) (cfg : Config) (site : String) (k : Nat) (s s' : State)
     (h : create B cfg site k s = .ok s') :
-    s'.clock = s.clock ∧ ∃ sexes sts : List Nat,
+    s'.clock = s.clock ∧ s'.res = s.res ∧ s'.pvals = s.pvals ∧ ∃ sexes sts ages : List Nat,
       s'.rows = s.rows ++ mkRows s.clock (newLabels s.rows k)
-        ((List.range (newLabels s.rows k).length).map (crnKey B cfg site s.clock)) sexes sts := by
-  rcases create_full B cfg site k s s' h with ⟨hnil, rfl⟩ | ⟨im, sexes, sts, _, _, _, rfl⟩
-  · exact ⟨rfl, [], [], by rw [hnil]; simp [mkRows]⟩
-  · exact ⟨rfl, sexes, sts, rfl⟩
+        ((List.range (newLabels s.rows k).length).map (crnKey B cfg site s.clock)) sexes sts ages := by
+  rcases create_full B cfg site k s s' h with ⟨hnil, rfl⟩ | ⟨im, sexes, sts, ages, _, _, _, rfl⟩
+  · exact ⟨rfl, rfl, rfl, [], [], [], by rw [hnil]; simp [mkRows]⟩
+  · exact ⟨rfl, rfl, rfl, sexes, sts, ages, rfl⟩
 
 /-! ### one listener call -/
 
@@ -189,8 +190,8 @@ def Evolves (t : Int) (r r' : Row) : Prop :=
 theorem Evolves.frozen {t : Int} {r r' : Row} (h : Evolves t r r') : Frozen r r' := by
   rcases h with h | ⟨ht, x, h⟩ | ⟨ht, h⟩
   · subst h; exact Frozen.refl _
-  · subst h; exact ⟨rfl, rfl, rfl, rfl, fun hu => by simp [ht] at hu⟩
-  · subst h; exact ⟨rfl, rfl, rfl, rfl, fun hu => by simp [ht] at hu⟩
+  · subst h; exact ⟨rfl, rfl, rfl, rfl, fun hu => by simp [ht] at hu, rfl⟩
+  · subst h; exact ⟨rfl, rfl, rfl, rfl, fun hu => by simp [ht] at hu, rfl⟩
 
 /-- a row that a creation at state `s` appended at table position `i` -/
 def Fresh (B : Blk) (cfg : Config) (s : State) (i : Nat) (r : Row) : Prop :=
@@ -218,10 +219,10 @@ theorem lt_of_getElem? {α : Type} {l : List α} {i : Nat} {a : α} (h : l[i]? =
 /-- a creation -/
 theorem create_rel (B : Blk) (cfg : Config) (t : Int) (site : String) (k : Nat) (s s' : State)
     (h : create B cfg site k s = .ok s') : ActRel B cfg t s s' := by
-  obtain ⟨hc, sexes, sts, hrows⟩ := create_spec B cfg site k s s' h
+  obtain ⟨hc, _, _, sexes, sts, ages, hrows⟩ := create_spec B cfg site k s s' h
   refine ⟨hc, ?_, ?_, ?_⟩
   rotate_left 2
-  · rcases create_full B cfg site k s s' h with ⟨_, rfl⟩ | ⟨im, sexes, sts, hne, himap, _, rfl⟩
+  · rcases create_full B cfg site k s s' h with ⟨_, rfl⟩ | ⟨im, sexes, sts, ages, hne, himap, _, rfl⟩
     · exact Or.inl rfl
     · refine Or.inr ⟨site, newLabels s.rows k, hne, fun hlab => ?_, himap⟩
       rw [newLabels_fresh s hlab]
@@ -259,37 +260,50 @@ theorem births_rel (B : Blk) (cfg : Config) (t : Int) (ph : Nat) (s s' : State)
 the index map is untouched -/
 theorem mort_rel (B : Blk) (cfg : Config) (evIdx : List Nat) (evTime : Int) (s s' : State)
     (h : mort B cfg evIdx evTime s = .ok s') :
-    ActRel B cfg evTime s s' ∧ s'.rows.length = s.rows.length ∧ s'.imap = s.imap := by
+    ActRel B cfg evTime s s' ∧ s'.rows.length = s.rows.length ∧ s'.imap = s.imap ∧ s'.res = s.res := by
   unfold mort at h
   simp only at h
   split at h
-  · cases h; exact ⟨ActRel.same B cfg _ s, rfl, rfl⟩
+  · cases h; exact ⟨ActRel.same B cfg _ s, rfl, rfl, rfl⟩
   · split at h
     · cases h
-    · cases h
-      refine ⟨⟨rfl, ?_, ?_, Or.inl rfl⟩, by simp, rfl⟩
-      · intro i r hr
-        simp only [List.getElem?_map, hr, Option.map_some]
-        refine ⟨_, rfl, ?_⟩
-        split
-        · rename_i hc
-          refine Or.inr (Or.inr ⟨?_, rfl⟩)
-          simp only [live, Bool.and_eq_true] at hc
-          exact hc.1.1
-        · exact Or.inl rfl
-      · intro i r' hr' hge
-        rw [List.getElem?_eq_none (by simpa using hge)] at hr'
-        cases hr'
+    · split at h
+      · cases h
+      · cases h
+        refine ⟨⟨rfl, ?_, ?_, Or.inl rfl⟩, by simp, rfl, rfl⟩
+        · intro i r hr
+          simp only [List.getElem?_map, hr, Option.map_some]
+          refine ⟨_, rfl, ?_⟩
+          split
+          · rename_i hc
+            refine Or.inr (Or.inr ⟨?_, rfl⟩)
+            simp only [live, Bool.and_eq_true] at hc
+            exact hc.1.1
+          · exact Or.inl rfl
+        · intro i r' hr' hge
+          rw [List.getElem?_eq_none (by simpa using hge)] at hr'
+          cases hr'
+
+/-- `ResultsManager.gather_results`: the table, the index map and the clock are not touched – only the results -/
+theorem observe_rel (B : Blk) (cfg : Config) (t : Int) (ph : Nat) (evIdx : List Nat) (evTime : Int) (s s' : State)
+    (h : observe cfg ph evIdx evTime s = .ok s') :
+    ActRel B cfg t s s' ∧ s'.rows = s.rows ∧ s'.imap = s.imap ∧ s'.clock = s.clock ∧ s'.pvals = s.pvals := by
+  unfold observe at h
+  split at h
+  · cases h
+    exact ⟨⟨rfl, fun _ r hr => ⟨r, hr, Or.inl rfl⟩,
+      fun i r' hr' hi => (by rw [List.getElem?_eq_none hi] at hr'; cases hr'), Or.inl rfl⟩, rfl, rfl, rfl, rfl⟩
+  · cases h
 
 /-- `WDisease.act` through the C17 model (`transition_frame`, `transition_untracked_untouched`): only the `state`
 cell of tracked simulants can change; nobody is added; the index map is untouched -/
 theorem disease_rel (B : Blk) (cfg : Config) (t : Int) (evIdx : List Nat) (s s' : State)
     (h : disease B cfg evIdx s = .ok s') :
-    ActRel B cfg t s s' ∧ s'.rows.length = s.rows.length ∧ s'.imap = s.imap := by
+    ActRel B cfg t s s' ∧ s'.rows.length = s.rows.length ∧ s'.imap = s.imap ∧ s'.res = s.res ∧ s'.pvals = s.pvals := by
   unfold disease at h
   simp only at h
   split at h
-  · cases h; exact ⟨ActRel.same B cfg _ s, rfl, rfl⟩
+  · cases h; exact ⟨ActRel.same B cfg _ s, rfl, rfl, rfl, rfl⟩
   · split at h
     · cases h
     · split at h
@@ -298,7 +312,7 @@ theorem disease_rel (B : Blk) (cfg : Config) (t : Int) (evIdx : List Nat) (s s' 
         cases h
         have hlen := (Viv.Props.C17.transition_frame _ _ _ _ _ htab).1
         have hlen' : tab.length = s.rows.length := by simpa using hlen
-        refine ⟨⟨rfl, ?_, ?_, Or.inl rfl⟩, by simp [hlen'], rfl⟩
+        refine ⟨⟨rfl, ?_, ?_, Or.inl rfl⟩, by simp [hlen'], rfl, rfl, rfl⟩
         · intro i r hr
           have hi := lt_of_getElem? hr
           have htb : tab[i]? = some tab[i] := by simp [hlen', hi]
@@ -325,7 +339,9 @@ theorem act_rel (B : Blk) (cfg : Config) (ph : Nat) (evIdx : List Nat) (evTime :
   · exact births_rel B cfg evTime ph s s' h
   · split at h
     · exact (mort_rel B cfg evIdx evTime s s' h).1
-    · exact (disease_rel B cfg evTime evIdx s s' h).1
+    · split at h
+      · exact (observe_rel B cfg evTime ph evIdx evTime s s' h).1
+      · exact (disease_rel B cfg evTime evIdx s s' h).1
 
 /-! ### lifting an invariant of listener calls to events, steps and runs -/
 
@@ -632,7 +648,7 @@ theorem initial_population (B : Blk) (cfg : Config) (s0 : State) (h0 : initPopB 
   split at h0
   · rename_i s1 h1
     cases h0
-    obtain ⟨_, sexes, sts, hrows⟩ := create_spec B cfg _ _ _ s1 h1
+    obtain ⟨_, _, _, sexes, sts, ages, hrows⟩ := create_spec B cfg _ _ _ s1 h1
     have hl : newLabels (initState cfg).rows cfg.pop = List.range' 0 cfg.pop :=
       newLabels_fresh (initState cfg) (good_lab (good_initState B cfg)) cfg.pop
     rw [hl] at hrows
@@ -703,7 +719,7 @@ theorem newborn_key_positional (B : Blk) (cfg : Config) (site : String) (k : Nat
     (h : create B cfg site k s = .ok s') (hl : Lab s) (j : Nat) (hj : j < k) :
     ∃ r, s'.rows[s.rows.length + j]? = some r ∧ r.label = s.rows.length + j ∧ r.entrance = s.clock ∧
       r.key = crnKey B cfg site s.clock j ∧ r.tracked = true := by
-  obtain ⟨_, sexes, sts, hrows⟩ := create_spec B cfg site k s s' h
+  obtain ⟨_, _, _, sexes, sts, ages, hrows⟩ := create_spec B cfg site k s s' h
   rw [newLabels_fresh s hl] at hrows
   simp only [List.length_range'] at hrows
   rw [hrows, List.getElem?_append_right (by omega), getElem?_mkRows]
@@ -1043,7 +1059,7 @@ theorem newborn_sex_crn (B : Blk) (cfg : Config) (hsize : 0 < blockSize cfg) (si
   obtain ⟨hsz, huse, hI, hsims⟩ := hm
   have hlab := good_lab hg
   have hlabels : newLabels s.rows k = List.range' s.rows.length k := newLabels_fresh s hlab k
-  rcases create_full B cfg site k s s' h with ⟨hnil, _⟩ | ⟨im, sexes, sts, hne, himap, hsex, rfl⟩
+  rcases create_full B cfg site k s s' h with ⟨hnil, _⟩ | ⟨im, sexes, sts, ages, hne, himap, hsex, rfl⟩
   · rw [hlabels] at hnil
     have : (List.range' s.rows.length k).length = 0 := by rw [hnil]; rfl
     simp at this; omega
@@ -1264,7 +1280,7 @@ theorem births_length (B : Blk) (cfg : Config) (ph : Nat) (s s' : State) (hl : L
     split at h
     · rename_i row hrow
       rw [hrow]
-      obtain ⟨_, _, _, hrows⟩ := create_spec B cfg _ _ s s' h
+      obtain ⟨_, _, _, _, _, _, hrows⟩ := create_spec B cfg _ _ s s' h
       rw [hrows, List.length_append, length_mkRows, newLabels_fresh s hl, List.length_range']
     · rename_i hnone
       cases h
